@@ -27,6 +27,19 @@ theorem lookup_frame {c c' : Cfg} {p p' : PState} {t u : Tid} {e : Option Ev} (h
     simp only [optStep] at hst
     exact held_stays_registered hs.inv (hs.tx_some u hpcu) hg hl (hev ev rfl) (Ne.symm hu) hst
 
+/-- the index entry of a record that thread `u` holds is not touched by a step of another thread `t` -/
+theorem index_frame {c c' : Cfg} {p p' : PState} {t u : Tid} {e : Option Ev} (hs : Sim c p) (hs' : Sim c' p')
+    (hst : optStep p e = some p') (hev : ∀ ev, e = some ev → evTx ev = some t) (hu : u ≠ t)
+    (hpcu : (c.loc u).pc ≠ .init) {g : Hold} (hg : g ∈ holdsOf (c.loc u)) {k : Key}
+    (hl : assoc c.sh.index k = some g.rid) : assoc c'.sh.index k = some g.rid := by
+  rw [← hs.idx] at hl
+  rw [← hs'.idx]
+  cases e with
+  | none => simp only [optStep] at hst; cases hst; exact hl
+  | some ev =>
+    simp only [optStep] at hst
+    exact index_stable hs.inv (hs.tx_some u hpcu) hg hl (hev ev rfl) (Ne.symm hu) hst
+
 /-- the shared part of the invariant of another thread is kept -/
 theorem sf_other {c : Cfg} {p p' : PState} {t u : Tid} {ch : Choice} {s' : Shared} {l' : Loc} {e : Option Ev}
     (hst : Strong c p) (hu : u ≠ t) (h : tstep c.sh t (c.loc t) ch = some (s', l', e))
@@ -35,7 +48,7 @@ theorem sf_other {c : Cfg} {p p' : PState} {t u : Tid} {ch : Choice} {s' : Share
   have hev : ∀ ev, e = some ev → evTx ev = some t := by
     intro ev he; subst he; exact tstep_evTx h
   have hsu := hst.sf u
-  refine ⟨fun x => (hsmu.2.2.2 u hu).1 (hsu.w x), fun x => (hsmu.2.2.2 u hu).2 (hsu.r x), ?_, ?_, ?_⟩
+  refine ⟨fun x => (hsmu.2.2.2 u hu).1 (hsu.w x), fun x => (hsmu.2.2.2 u hu).2 (hsu.r x), ?_, ?_, ?_, ?_⟩
   · intro hpc
     have hwu := hsu.w (by simp [hpc, inW])
     have hnw : inW (c.loc t).pc = false := by
@@ -56,6 +69,12 @@ theorem sf_other {c : Cfg} {p p' : PState} {t u : Tid} {ch : Choice} {s' : Share
     exact lookup_frame (c' := ⟨s', setD c.thr t l'⟩) (g := ⟨(c.loc u).m, (c.loc u).key, modeOf (c.loc u).write,
       (c.loc u).okcur && ((c.loc u).write || (c.loc u).hv)⟩) hst.sim hs' hstep hev hu (by simp [hpc])
       (by simp [holdsOf, hpc]) hl
+  · intro hpc hok
+    have hl := hsu.gidx hpc hok
+    have hne : (c.loc u).pc ≠ .init := by rcases hpc with h | h | h <;> simp [h]
+    have hmem : (⟨(c.loc u).m, (c.loc u).key, .w, (c.loc u).okcur⟩ : Hold) ∈ holdsOf (c.loc u) := by
+      rcases hpc with h | h | h <;> simp [holdsOf, h]
+    exact index_frame (c' := ⟨s', setD c.thr t l'⟩) hst.sim hs' hstep hev hu hne hmem hl
 
 /-- the stronger invariant is inductive, and every step is a step of the protocol -/
 theorem strong_step {c c' : Cfg} {p : PState} {t : Tid} {ch : Choice} {e : Option Ev} (hst : Strong c p)
@@ -79,7 +98,15 @@ theorem strong_step {c c' : Cfg} {p : PState} {t : Tid} {ch : Choice} {e : Optio
       by_cases hu : u = t
       · subst hu
         simp only [if_true]
-        exact ⟨hsmu.2.1, hsmu.2.2.1, sf_d3_self hst.sim hts, sf_reg_self hst hts, sf_vreg_self hts⟩
+        refine ⟨hsmu.2.1, hsmu.2.2.1, sf_d3_self hst.sim hts, sf_reg_self hst hts, sf_vreg_self hts, ?_⟩
+        have hold : g678 (c.loc u).pc = true → (c.loc u).okcur = true →
+            assoc c.sh.index (c.loc u).key = some (c.loc u).m := by
+          intro hx
+          refine (hst.sf u).gidx ?_
+          cases hq : (c.loc u).pc <;> simp [hq, g678] at hx <;> simp
+        intro hx
+        refine sf_gidx_self hold hts ?_
+        rcases hx with h | h | h <;> simp [h, g678]
       · simp only [hu, if_false]
         exact sf_other hst hu hts hs' hstep
 
